@@ -1929,6 +1929,16 @@ def static_items(family, b):
                         yield (ident + ":filtered", "Table", "after filtered", lambda mkt=mkt, header=header, rows=rows: mkt().filtered(lambda v, x=rows[0][0]: v == x, columns=header[0]), observe_table, True)
                         yield (ident + ":get_columns", "Table", "after get_columns", lambda mkt=mkt, header=header: mkt().get_columns([header[-1]]), observe_table, True)
                         yield (ident + ":titled", "Table", "with title, legend and index", lambda mkt=mkt, header=header, rows=rows: mkt(title="T i", legend="L,\"x\"", index_name=header[0] if rows[0][0] != rows[1][0] else None), observe_table, True)
+        def _idx_hist(steps):
+            t = make_table(header=["k", "x", "y"], data=[["r1", 1, "p"], ["r2", 3, "q"]], index_name=steps[0])
+            for st in steps[1:]:
+                t.index_name = st
+            return t
+
+        # the index column is mutable state of a table: set at construction or later, moved to another column, removed again
+        for steps in (["k", None], [None, "k"], [None, "k", None], ["k", "x"], ["k", "x", None], [None, "y", "k"]):
+            yield ("index history " + ">".join(str(x) for x in steps), "Table", "after its index column was set / moved / removed",
+                   lambda steps=steps: _idx_hist(steps), observe_table, True)
         yield ("missing", "Table", "with None cells", lambda: make_table(header=["a", "b"], data=[[1, None], [None, "x"]]), observe_table, True)
         yield ("nan", "Table", "with nan cells", lambda: make_table(header=["a", "b"], data=[[1.5, float("nan")], [float("nan"), 2.0]]), observe_table, True)
         yield ("formatted", "Table", "with column formats and digits", lambda: make_table(header=["a", "b"], data=[[1.23456, 2], [3.0, 4]], digits=2, space=2, column_templates={"a": "%.1f"}), observe_table, True)
